@@ -176,6 +176,10 @@ let () = serve (fun fn req ->
     let st = sig_run ops in
     JObj [("signature", of_option of_bytes st.st_signature); ("hash", of_option of_bytes st.st_channel_hash);
           ("bytes", of_option of_bytes (sig_to_bytes st (jbytes (jfield req "payload"))))]
+  | "claim_view" ->
+    let cur = (match jfield req "cur" with JNull -> None | v -> Some (jn v)) in
+    let (t, ok) = claim_view cur (jn (jfield req "req")) in
+    JObj [("type", of_option of_n t); ("granted", of_bool ok)]
   | "hexlify" -> of_bytes (hexlify (jbytes (jfield req "b")))
   | "unhexlify" -> of_option of_bytes (unhexlify (jbytes (jfield req "s")))
   | "claim_id_of_hash" -> of_bytes (claim_id_of_hash (jbytes (jfield req "h")))
